@@ -2448,6 +2448,7 @@ def normalize_module(tree: ast.Module, extern=None) -> ast.Module:
             n2.chainmap_locals(n)
             n2.exitstack_rollback(n)
             n2.exitstack_enter(n)
+            n2.conditional_arguments(n)
             n2.sink_selected_calls(n)
             n2.specialise_strategies(n)
             while n2.conditional_pipelines(n):
@@ -2472,6 +2473,7 @@ def normalize_module(tree: ast.Module, extern=None) -> ast.Module:
                     if not n2.propagate_local_constants(n):
                         break
                 n2.local_partials(n)
+                n2.conditional_arguments(n)
                 n2.fuse_collect_loops(n)
                 n2.fuse_collect_into_comprehension(n)
                 n2.inline_single_use_generators(n)
